@@ -14,7 +14,7 @@ from typing import Dict, List, Optional, Tuple
 import common
 import spec as S
 
-GEN_VERSION = "17"
+GEN_VERSION = "18"
 
 STRUM_DERIVES = ["EnumString", "Display", "AsRefStr", "IntoStaticStr", "VariantNames", "EnumIter", "EnumCount", "FromRepr",
                  "VariantArray", "EnumDiscriminants", "EnumIs", "EnumTryAs", "EnumMessage", "EnumProperty", "EnumTable",
@@ -455,7 +455,7 @@ def family_overlap(start: int) -> List[E]:
     for i, (emetas, vs_) in enumerate(shapes):
         eid = start + i
         vs = [V(n, "unit", [], [m_] if m_ else []) for n, m_ in vs_]
-        e = E("Ovl%04d" % eid, "overlap", ["EnumString"], vs, attrs=[emetas] if emetas else [])
+        e = E("Ovl%04d" % eid, "overlap", ["EnumString", "VariantNames", "VariantArray", "EnumCount", "EnumIter", "Display"], vs, attrs=[emetas] if emetas else [], std_derives=["Clone", "Copy", "Debug", "PartialEq"])
         out.append(e)
         out.append(E(e.name, "overlap_phf", ["EnumString"], [V(v.name, v.kind, [], [list(a) for a in v.attrs]) for v in vs], attrs=[emetas + ["use_phf"]], std_only=True, phf=True, twin_of=e.name))
     return out
@@ -527,6 +527,17 @@ def family_style_ci(start: int) -> List[E]:
             metas = (["serialize_all = %s" % rstr(style)] if style else []) + (["ascii_case_insensitive"] if e_aci else [])
             out.append(E("Sci%04d" % eid, "style_ci", ["EnumString", "Display", "VariantNames", "AsRefStr"], vs, attrs=[metas] if metas else []))
             eid += 1
+    return out
+
+
+def family_raw_idents(start: int) -> List[E]:
+    """Family A6: raw-identifier variants. What such a variant's identifier is *as a string* is not fixed by the properties, so the
+    oracle-based name checks skip these enums; the relational checks (print/parse round trip, positions) use them."""
+    out = []
+    for i, style in enumerate([None, "SCREAMING_SNAKE_CASE", "kebab-case"]):
+        vs = [V("r#match"), V("r#type", "tuple", [(None, "u8")]), V("Plain"), V("r#loop", attrs=[["serialize = \"explicit-loop\""]]), V("r#Self_like")]
+        metas = [["serialize_all = %s" % rstr(style)]] if style else []
+        out.append(E("Raw%04d" % (start + i), "raw_idents", ["EnumString", "Display", "AsRefStr", "IntoStaticStr", "VariantNames", "EnumMessage", "EnumIter", "EnumCount"], vs, attrs=metas))
     return out
 
 
@@ -870,6 +881,7 @@ def generate(tier: str, seed: int) -> List[E]:
     es += family_strings(rng, 70 if tier == "quick" else 1000, 1)
     es += family_unit_strings(rng, 24 if tier == "quick" else 240, 1)
     es += family_big(1, [33, 257] if tier == "quick" else [33, 64, 129, 257, 600])
+    es += family_raw_idents(1)
     es += family_style_ci(1)
     es += family_overlap(1)
     es += family_placeholders(1)
